@@ -105,6 +105,9 @@ func genC19(r *rand.Rand, tier string, env *Env) []Case {
 	var cases []Case
 	empty := [][]byte{{}, {}, {}, {}, {}, {}}
 	for _, w := range []string{"a\\(?i:foo\n", "(a\\(?i)b\n", "\\(?i:", "(?i:", "(?i:a", "x(?s:.)(?i)y\n", "((?i:a)|b)\n", "(?:a\n", "a)\n", "\\", "(?:\\)\n", "[(?i:]\n", "##!<", "##!=>", "##!=< \n", "##!> cmdline\n", "##!> include\n", "##!> include inc1 -- a\n",
+		// definitions that refer to themselves, directly or in a cycle, used or not: one pass, then the text stays as it is
+		"##!> define a {{a}}\nfoo{{a}}\n", "##!> define a x{{a}}y\n{{a}}\n", "##!> define a {{b}}x\n##!> define b {{a}}y\nq{{a}}\n", "##!> define a {{b}}\n##!> define b {{a}}\nz\n",
+		"##!> define a {{a}}{{a}}\n{{a}}\n", "##!> define aa {{a}}\n##!> define a {{aa}}a\n{{aa}}|{{a}}\n",
 		"##!> cmdline unix\n\\@\n##!<\n", "##!> cmdline windows\n\\~\n##!<\n", "##!> cmdline unix\n\\\\\n##!<\n", "##!> cmdline unix\n\\\\\\x\n##!<\n", "##!> cmdline unix\n\\\n@\n~\n'\n##!<\n"} {
 		args := append(append([][]byte{}, empty...), []byte(w))
 		cases = append(cases, Case{Kind: "fixed", Ops: []Op{{"gen.run", args}, {"pass.cleanUp", [][]byte{[]byte(w)}}}, Oracles: []Op{{"c19.nocrash", args}, {"c19.cli", args}}})
@@ -113,6 +116,11 @@ func genC19(r *rand.Rand, tier string, env *Env) []Case {
 	for _, prog := range []string{"##!> cmdline unix\n##!> include cmds -- @ \"\"\n##!<\n", "##!> cmdline windows\nfoo\n##!> include-except cmds none -- @ \"\"\n##!<\n",
 		"##!> include cmds -- @ \"\"\nx\n", "##!> assemble\n##!> include cmds -- @ \"\"\n##!=>\ny\n##!<\n", "##!> cmdline unix\n##!> include cmds -- s \"\" @ \"\"\n##!<\n"} {
 		args := append(append([][]byte{}, empty...), []byte(prog), []byte("i"), []byte("cmds.ra"), []byte("ls@\n@\ncat@\ns\n"), []byte("e"), []byte("none.ra"), []byte("zzz\n"))
+		cases = append(cases, Case{Kind: "fixed", Ops: []Op{{"gen.run", args}}, Oracles: []Op{{"c19.nocrash", args}, {"c19.cli", args}}})
+	}
+	{
+		// the same inside an include file and an exclusion file
+		args := append(append([][]byte{}, empty...), []byte("##!> include cyc\n##!> include-except words cyc\nx\n"), []byte("i"), []byte("cyc.ra"), []byte("##!> define a p{{b}}\n##!> define b {{a}}q\n{{a}}\nw\n"), []byte("i"), []byte("words.ra"), []byte("w\nv\n"))
 		cases = append(cases, Case{Kind: "fixed", Ops: []Op{{"gen.run", args}}, Oracles: []Op{{"c19.nocrash", args}, {"c19.cli", args}}})
 	}
 	for i := 0; i < n; i++ {
